@@ -454,7 +454,7 @@ def purity_guards(F, rep):
     arms = tc.arm_of(F, fexpr, E, "Call")
     if arms:
         arm = arms[0][0]
-        inner = [m for m in nodes(arm["body"], "Match") if ty_is(m.get("scrut_ty", ""), TY)]
+        inner = [m for m in nodes(arm["body"], "Match") if ty_is(m.get("scrut_ty", ""), TY) and "matches" not in (m.get("mac") or [])]
         ok_struct = False
         if inner:
             fa = [a for a in inner[0]["arms"] if any((pat_variant(x) or "").endswith("Type::Function") for x in pat_alternatives(a["pat"]))]
